@@ -117,13 +117,22 @@ pub fn shard_run(prop: &str, tier: &str, seed: u64, replay: Option<&serde_json::
             execs += 1;
             let random_phase = dfs_done_at.is_some();
             let t_exec = std::time::Instant::now();
-            let (obs, taken, divergent) = if random_phase {
-                let mut ch = RandChooser { rng: rnd.fork(execs as u64), taken: vec![] };
-                (execute(scn, &mut ch, true), ch.taken, false)
-            } else {
-                let mut ch = DfsChooser { prefix: prefix.clone(), pos: 0, taken: vec![], divergent: false };
-                let o = execute(scn, &mut ch, replay_scn.is_some());
-                (o, ch.taken, ch.divergent)
+            let mut attempt = 0;
+            let (obs, taken, divergent) = loop {
+                attempt += 1;
+                let r = if random_phase {
+                    let mut ch = RandChooser { rng: rnd.fork(execs as u64), taken: vec![] };
+                    (execute(scn, &mut ch, true), ch.taken, false)
+                } else {
+                    let mut ch = DfsChooser { prefix: prefix.clone(), pos: 0, taken: vec![], divergent: false };
+                    let o = execute(scn, &mut ch, replay_scn.is_some());
+                    (o, ch.taken, ch.divergent)
+                };
+                // a watchdog expiry (overloaded machine) is retried before it counts as inconclusive
+                if r.0.is_ok() || attempt >= 3 {
+                    break r;
+                }
+                cov.count("executions_retried_after_watchdog", 1);
             };
             cov.evaluations += 1;
             if std::env::var("VERIF_E2_TIMING").is_ok() {
